@@ -1,0 +1,45 @@
+//go:build verif
+
+// Entry points for the runtime-monitoring harness, compiled only with the
+// build tag "verif". They expose the parser and the VM hooks, which live in
+// internal packages, to a harness in another module.
+
+package scriggo
+
+import (
+	"io/fs"
+
+	"github.com/open2b/scriggo/ast"
+	"github.com/open2b/scriggo/internal/compiler"
+	"github.com/open2b/scriggo/internal/runtime"
+)
+
+// VerifHooks are the VM observation points.
+type VerifHooks = runtime.VerifHooks
+
+// Yield sites passed to VerifHooks.Yield.
+const (
+	VerifSiteGoBefore   = runtime.VerifSiteGoBefore
+	VerifSiteGoAfter    = runtime.VerifSiteGoAfter
+	VerifSiteSend       = runtime.VerifSiteSend
+	VerifSiteReceive    = runtime.VerifSiteReceive
+	VerifSiteSelect     = runtime.VerifSiteSelect
+	VerifSiteArgsGet    = runtime.VerifSiteArgsGet
+	VerifSiteNativeCall = runtime.VerifSiteNativeCall
+	VerifSiteArgsPut    = runtime.VerifSiteArgsPut
+)
+
+// VerifSetHooks installs the VM hooks. It must not be called while code is running.
+func VerifSetHooks(h VerifHooks) { runtime.SetVerifHooks(h) }
+
+// VerifParseProgram parses the program in fsys and returns its tree.
+func VerifParseProgram(fsys fs.FS) (*ast.Tree, error) {
+	return compiler.ParseProgram(fsys)
+}
+
+// VerifParseTemplateSource parses a template source and returns its
+// unexpanded tree.
+func VerifParseTemplateSource(src []byte, format Format, imported, noParseShow bool) (*ast.Tree, error) {
+	tree, _, err := compiler.ParseTemplateSource(src, ast.Format(format), imported, noParseShow)
+	return tree, err
+}
